@@ -1,4 +1,6 @@
 import PallasVerif.Proofs.ChunkReader
+import PallasVerif.Props.C42
+import PallasVerif.Model.ImmutableDbFiles
 /-!
 # C43 — Immutable-DB readers report corrupted files as errors
 
@@ -26,6 +28,12 @@ content of the property is carried by:
   lengths) the chunk reader yields exactly the blocks; and byte for byte: a primary index file
   without empty slots, a secondary index file with one 56-byte entry per block and the chunk file
   made of the blocks are read back, through all three readers, as exactly the blocks.
+
+* `damaged_db_total`, `intact_db_from_files` — the composed model (`Model/ImmutableDbFiles.lean`: the
+  directory level of C42 over what these file readers deliver, chunks that fail to open included):
+  for arbitrary bytes in every file `read_blocks_from_point` / `get_tip` return a result or an error;
+  and for intact files, end to end from index bytes to the returned suffix, the reads are the ones
+  C42 specifies.
 
 Not modelled: OS read errors other than end of file, the `u32` relative-slot counter of the primary
 reader (overflows only on a primary index above 16 GiB), directory-level composition (sampled).
@@ -355,6 +363,173 @@ theorem intact_roundtrip {β : Type} (b : List β) (rest : List (List β))
   simp only [List.nil_append, List.append_nil, List.length_nil, hstarts] at hs
   rw [hs]
   exact congrArg some (intact_slicing b rest)
+
+/-! ## the damaged database: file readers composed with the directory level -/
+section Composed
+open PallasVerif.ImmutableDb PallasVerif.Proofs.ImmutableDb
+variable {β H : Type} [DecidableEq H]
+
+theorem chunkCmpF_ne_panic (slot : Nat) (c : FChunk H) : chunkCmpF slot c ≠ .panic := by
+  cases c with
+  | none => simp [chunkCmpF]
+  | some c => exact C42.chunkCmp_ne_panic slot c
+
+/-- For **any** bytes in the primary index, secondary index and chunk file of **any** chunk — truncated,
+    overwritten, inconsistent — and any behaviour of the block decoder on what is sliced out,
+    `read_blocks_from_point` and `get_tip` over the files return a result or an error: the file
+    readers yield items (their model has no failing arithmetic left, `blocks_within_file`), the
+    binary search stays in bounds and terminates, the peek loop ends. -/
+theorem damaged_db_total (decode : List β → Option (Block H)) (files : List (ImmutableDbFiles.ChunkFiles β))
+    (slot : Nat) (hash : Option H) :
+    ImmutableDbFiles.readBlocksFromPoint decode files slot hash ≠ .panic ∧
+    ImmutableDbFiles.getTip decode files ≠ .panic := by
+  constructor
+  · unfold ImmutableDbFiles.readBlocksFromPoint readBlocksFromPointF
+    have hb := C42.binary_search_total (stackF (ImmutableDbFiles.dbOf decode files)) (chunkCmpF slot) (chunkCmpF_ne_panic slot)
+    simp only
+    cases hs : chunkBinarySearch (stackF (ImmutableDbFiles.dbOf decode files)) (chunkCmpF slot) with
+    | panic => exact absurd hs hb
+    | err e => simp
+    | ok r =>
+      cases r with
+      | none => simp
+      | some idx => simp only; exact C42.iterateTillPoint_ne_panic _ _ _
+  · unfold ImmutableDbFiles.getTip getTipF
+    split
+    · simp
+    · simp
+    · split <;> simp
+
+/-! ### when every chunk opens, the file-aware functions are the plain ones -/
+
+theorem readersF_some (l : List (Chunk H)) : readersF (l.map some) = readers l := by
+  unfold readersF readers
+  rw [← List.map_reverse]
+  have h1 : ((l.reverse.map some).takeWhile Option.isSome) = l.reverse.map some := by
+    induction l.reverse with
+    | nil => rfl
+    | cons a t ih => simp [List.takeWhile_cons, ih]
+  rw [h1]
+  have h2 : ∀ (x : List (Chunk H)), (x.map some).filterMap id = x := by
+    intro x; induction x with
+    | nil => rfl
+    | cons a t ih => simp [List.filterMap_cons, ih]
+  rw [h2]
+
+theorem bsLoop_map {α γ : Type} (f : α → γ) (chunks : List α) (cmp : γ → Res Ordering) (fuel left right size : Nat) :
+    bsLoop (chunks.map f) cmp fuel left right size = bsLoop chunks (fun c => cmp (f c)) fuel left right size := by
+  induction fuel generalizing left right size with
+  | zero => rfl
+  | succ fuel ih =>
+    unfold bsLoop
+    simp only [List.getElem?_map, List.length_map]
+    split
+    · cases hc : chunks[left + size / 2]? with
+      | none => simp
+      | some c =>
+        simp only [Option.map_some]
+        cases cmp (f c) with
+        | err e => rfl
+        | panic => rfl
+        | ok o => cases o <;> simp only [ih]
+    · rfl
+
+theorem chunkBinarySearch_map {α γ : Type} (f : α → γ) (chunks : List α) (cmp : γ → Res Ordering) :
+    chunkBinarySearch (chunks.map f) cmp = chunkBinarySearch chunks (fun c => cmp (f c)) := by
+  unfold chunkBinarySearch
+  rw [List.length_map]
+  exact bsLoop_map f chunks cmp _ _ _ _
+
+theorem stackF_some (all : List (Chunk H)) : stackF (all.map some) = (stack all).map some := by
+  unfold stackF stack
+  rw [List.map_reverse, List.map_dropLast]
+
+theorem readFromF_some (all : List (Chunk H)) (slot : Nat) (hash : Option H) :
+    readBlocksFromPointF (all.map some) slot hash = readBlocksFromPoint all slot hash := by
+  unfold readBlocksFromPointF readBlocksFromPoint
+  simp only [stackF_some, chunkBinarySearch_map]
+  have : (fun c : Chunk H => chunkCmpF slot (some c)) = chunkCmp slot := rfl
+  rw [this]
+  cases chunkBinarySearch (stack all) (chunkCmp slot) with
+  | err e => rfl
+  | panic => rfl
+  | ok r =>
+    cases r with
+    | none => rfl
+    | some idx => simp only [← List.map_take, readersF_some]
+
+theorem readBlocksF_some (all : List (Chunk H)) : readBlocksF (all.map some) = readBlocks all := by
+  unfold readBlocksF readBlocks; rw [stackF_some, readersF_some]
+
+theorem getTipF_some (all : List (Chunk H)) : getTipF (all.map some) = getTip all := by
+  unfold getTipF getTip
+  rw [stackF_some]
+  cases stack all with
+  | nil => rfl
+  | cons c t => rfl
+
+/-! ### an intact database given as files -/
+
+/-- the three files of a chunk holding the blocks `bs` (encoded by `enc`), as `intact_roundtrip` builds them -/
+def intactFiles (enc : Block H → List β) (bs : List (Block H)) : ImmutableDbFiles.ChunkFiles β :=
+  let blocks := bs.map enc
+  { primary := primaryBytes (arith 0 (blocks.length + 1))
+    secondary := secondaryBytes (0 :: (startsFrom 0 blocks).dropLast)
+    chunk := blocks.flatten }
+
+theorem chunkOf_intact (enc : Block H → List β) (decode : List β → Option (Block H)) (hdec : ∀ b, decode (enc b) = some b)
+    (bs : List (Block H)) (hne : bs ≠ [])
+    (hidx : 56 * (bs.length + 1) ≤ 256 ^ 4) (hsz : ((bs.map enc).flatten).length < 256 ^ 8) :
+    ImmutableDbFiles.chunkOf decode (intactFiles enc bs) = some (C42.toChunk bs) := by
+  cases bs with
+  | nil => exact absurd rfl hne
+  | cons b rest =>
+    unfold ImmutableDbFiles.chunkOf intactFiles
+    simp only [List.map_cons]
+    have hr := intact_roundtrip (enc b) (rest.map enc) (by simpa using hidx) (by simpa using hsz)
+    simp only [List.length_cons, List.length_map] at hr ⊢
+    rw [hr]
+    simp only [Option.map_some, C42.toChunk, List.map_cons, List.map_map, ImmutableDbFiles.itemOf, hdec, Option.some.injEq,
+      List.cons.injEq, true_and]
+    apply List.map_congr_left
+    intro x _
+    simp [Function.comp, ImmutableDbFiles.itemOf, hdec]
+
+/-- **End to end on intact files**: a database whose chunk files hold the blocks of `db` (any encoding
+    `enc` the block decoder inverts), with the index files written the way the node writes them, is
+    read as C42 says — in particular reading from an existing point yields the suffix starting at
+    that block — through the byte-level index parsers, the chunk slicing, the binary search and the
+    peek loop together. -/
+theorem intact_db_from_files (enc : Block H → List β) (decode : List β → Option (Block H)) (hdec : ∀ b, decode (enc b) = some b)
+    (db : List (List (Block H))) (newest : List (Block H))
+    (hne : ∀ c ∈ db ++ [newest], c ≠ []) (hsorted : C42.Sorted db.flatten)
+    (hidx : ∀ c ∈ db ++ [newest], 56 * (c.length + 1) ≤ 256 ^ 4) (hsz : ∀ c ∈ db ++ [newest], ((c.map enc).flatten).length < 256 ^ 8)
+    (pre post : List (Block H)) (b : Block H) (hchain : db.flatten = pre ++ b :: post) :
+    ImmutableDbFiles.readBlocksFromPoint decode ((db ++ [newest]).map (intactFiles enc)) b.slot (some b.hash)
+      = .ok ((b :: post).map Item.blk) ∧
+    ImmutableDbFiles.readBlocks decode ((db ++ [newest]).map (intactFiles enc)) = db.flatten.map Item.blk ∧
+    ImmutableDbFiles.getTip decode ((db ++ [newest]).map (intactFiles enc)) = .ok db.flatten.getLast? := by
+  have hdb : ImmutableDbFiles.dbOf decode ((db ++ [newest]).map (intactFiles enc)) = ((db ++ [newest]).map C42.toChunk).map some := by
+    unfold ImmutableDbFiles.dbOf
+    rw [List.map_map, List.map_map]
+    apply List.map_congr_left
+    intro c hc
+    exact chunkOf_intact enc decode hdec c (hne c hc) (hidx c hc) (hsz c hc)
+  have hint : C42.Intact ((db ++ [newest]).map C42.toChunk) db := by
+    refine ⟨?_, fun c hc => hne c (by simp [hc]), hsorted⟩
+    simp [List.map_append, List.dropLast_concat]
+  refine ⟨?_, ?_, ?_⟩
+  · unfold ImmutableDbFiles.readBlocksFromPoint
+    rw [hdb, readFromF_some]
+    exact C42.from_existing_point _ db hint pre post b hchain
+  · unfold ImmutableDbFiles.readBlocks
+    rw [hdb, readBlocksF_some]
+    exact (C42.read_all _ db hint).1
+  · unfold ImmutableDbFiles.getTip
+    rw [hdb, getTipF_some]
+    exact C42.tip_is_last _ db hint
+end Composed
+
 
 /-! ## Non-vacuity -/
 example : readChunk [1, 0,0,0,0, 0,0,0,56, 0,0,0,112] (List.replicate 56 0 ++ ([0,0,0,0,0,0,0,2] ++ List.replicate 48 0)) [7, 8, 9]
